@@ -327,3 +327,34 @@ impl From<&KademliaPeer> for schema::kademlia::Peer {
         }
     }
 }
+
+#[cfg(feature = "verif")]
+impl<T: Clone> Key<T> {
+    /// Verification hook: build a key with chosen raw key bytes.
+    pub fn verif_from_bytes(bytes: [u8; 32], preimage: T) -> Key<T> {
+        Key {
+            preimage,
+            bytes: KeyBytes(Array::from(bytes)),
+        }
+    }
+
+    /// Verification hook: raw key bytes.
+    pub fn verif_bytes(&self) -> [u8; 32] {
+        let mut out = [0u8; 32];
+        out.copy_from_slice(self.bytes.0.as_slice());
+        out
+    }
+}
+
+#[cfg(feature = "verif")]
+impl KademliaPeer {
+    /// Verification hook: read-only view of the peer entry.
+    pub fn verif_parts(&self) -> (PeerId, [u8; 32], ConnectionType, Vec<Multiaddr>) {
+        (
+            self.peer,
+            self.key.verif_bytes(),
+            self.connection,
+            self.address_store.addresses(usize::MAX),
+        )
+    }
+}
